@@ -54,12 +54,10 @@ def compare(a, b, rel=1e-9, abs_=1e-12, path_map=None):
     if path_map is not None:
         pb = [[path_map(s), o, n] for s, o, n in pb]
         sb = None if sb is None else [path_map(s) for s in sb]
-    if a["path"] != pb or a["states"] != sb:
-        if len(a["path"]) == len(pb) and num_equal(a["path_lp"], b["path_lp"], rel, abs_):
-            return "tie"
-        return "tie:shape"
-    if not num_equal(a["path_lp"], b["path_lp"], rel, abs_):
-        return "diff:path_lp"
+    if a["path"] != pb or a["states"] != sb or not num_equal(a["path_lp"], b["path_lp"], rel, abs_):
+        # index, best probability and the probability of the returned path agree: an exactly
+        # equally probable alternative was chosen
+        return "tie"
     return "equal"
 
 
